@@ -6,6 +6,20 @@ BASELINE = ("cd /repo && cargo nextest run --workspace --no-fail-fast --test-thr
             "|| cargo test --workspace --no-fail-fast --offline")
 
 CHECKS = {
+    "C18": dict(
+        category="exploration",
+        text=("The three MCLMC presets are run through the public API with a SpyMath backend (a delegating implementation of the public Math "
+              "trait, no change to nuts-rs) that records every esh_momentum_update, array_normalize and array_gaussian call. Checked on "
+              "generated histories with divergences, retries and the trajectory switch: unit norm before and after every ESH update and "
+              "after every refresh, new momentum and reported kinetic-energy change equal to the documented closed form (double-double), "
+              "num_steps = max(1, round(f L / eps)) for the step size in force (>= and equal integration time under dynamic retry), "
+              "energy_change = sum of kinetic-energy changes minus log-density change, divergent draws keep the position and draw and "
+              "normalise a fresh momentum, the Euclidean -> microcanonical switch happens exactly at the configured draw with a fresh momentum."),
+        design_ref="DESIGN.md section 3, C18",
+        note=("The closed form is judged for delta = step |g| / (d-1) <= 30 and finite non-zero gradients. Energy bookkeeping is judged "
+              "for microcanonical draws without retry and without a transformation change since the previous draw."),
+        technique="proptest-generated MCLMC histories observed through a recording Math wrapper, closed-form ESH reference in double-double",
+    ),
     "C09": dict(
         category="exploration",
         text=("Chains of the diagonal and low-rank NUTS and MCLMC presets are run on generated schedules (num_tune, window fractions, switch / "
